@@ -308,6 +308,13 @@ func newSimWriter(plan WriterPlan, yield bool) *simWriter {
 		err = syscall.EPIPE
 	case 14:
 		err = os.ErrClosed
+	case 16:
+		// errno values that a retry loop might take for "try again": the writer stub still
+		// refused the bytes, and the call must not report success
+		err = syscall.EAGAIN
+		if plan.ErrVariant%2 == 1 {
+			err = syscall.EINTR
+		}
 	case 15:
 		err = multiErr{"writer stub: injected failure", "(an error value of a type that cannot be compared with ==)"}
 	}
